@@ -44,6 +44,7 @@ type RunSpec struct {
 	StashPrev    bool              `json:"stashPrev,omitempty"`    // move the file saved by the previous run out of testdata (to ./stash) first
 	FailfileRun  int               `json:"failfileRun,omitempty"`  // -rapid.failfile=<file saved by run k> (after stashing, its new place)
 	FuzzFrom     []string          `json:"fuzzFrom,omitempty"`     // extra fuzz inputs: "recorded" / "pruned" words of the last recording made in an earlier run
+	TruncPrev    []int             `json:"truncPrev,omitempty"`    // create fail files holding the first j words of the file saved by an earlier run
 	FreshProc    bool              `json:"freshProc,omitempty"`    // execute this run in a new process (its events are spliced into the trace)
 	FailfileFuzz int               `json:"failfileFuzz,omitempty"` // write a fail file holding the words of fuzz input j (decoded by the harness) and pass it with -rapid.failfile
 }
@@ -282,6 +283,29 @@ func RunScenario(t *testing.T, rec *Recorder, sc *Scenario) {
 			_ = os.Chdir(d2)
 		}
 		writeFiles(run.Files)
+		lastSaved := ""
+		for k := 1; k <= i; k++ {
+			if savedFiles[k] != "" {
+				lastSaved = savedFiles[k]
+			}
+		}
+		if len(run.TruncPrev) > 0 && lastSaved != "" {
+			if pf := ParseFailFile(lastSaved); pf["ok"] == true {
+				words := pf["buf"].([]uint64)
+				for _, j := range run.TruncPrev {
+					if j > len(words) {
+						j = len(words)
+					}
+					lines := []string{"# truncated by the harness", ver + "#0"}
+					for _, w := range words[:j] {
+						lines = append(lines, fmt.Sprintf("0x%x", w))
+					}
+					p := filepath.Join("testdata", "rapid", SafeName(name), fmt.Sprintf("%s-trunc%04d.fail", SafeName(name), j))
+					_ = os.MkdirAll(filepath.Dir(p), 0o775)
+					_ = os.WriteFile(p, []byte(strings.Join(lines, "\n")), 0o664)
+				}
+			}
+		}
 		if run.FreshProc {
 			runInFreshProcess(rec, sc, run, i)
 			continue
